@@ -347,7 +347,7 @@ func (r *runningRoutine) execute(
 						r.deferRetry = time.AfterFunc(dur, func() {
 							verifhook.Point(verifhook.RoutineTimer, r.r)
 							r.r.bcast.HoldLock(func(broadcast func(), getWaitCh func() <-chan struct{}) {
-								if r.r.ctx != nil && r.r.routine == r && r.exited {
+								if r.r.ctx != nil && r.r.routine == r && r.exited && r.ctx == ctx {
 									r.start(r.r.ctx, r.exitedCh, true)
 								}
 								broadcast()
